@@ -20,7 +20,7 @@ def nontrivial(evs):
 
 def run(c):
     g.model(c, "MCGossipsub_canary_graftfilter.cfg", "FilterBound")
-    traces = g.drive(c, ["filter", "filterg"], 200, 3000)
+    traces = g.drive(c, ["filter", "filterg"], 400, 3000)
     # violations in the GRAFT class are the design's section 7-10 finding: same property, own label
     def attr(rec, reason):
         return None
